@@ -313,6 +313,14 @@ fn joint_xml(r: &mut Rng, u: &URDFParameters, lay: &Layout, names: &[String; 6])
                 inner.push_str(&format!("<limit lower=\"{}\" upper=\"{}\" effort=\"0\" velocity=\"1.0\"/>", num(r, u.from[k]), num(r, u.to[k])));
             }
         }
+        else if r.chance(0.35) {
+            // a joint without limits written the URDF way for continuous joints: a <limit> carrying effort / velocity only
+            // (or only one of the two bounds): still a joint without limits, never an error
+            inner.push_str(*r.pick(&["<limit effort=\"10\" velocity=\"2.0\"/>", "<limit velocity=\"1.0\"/>", "<limit/>",
+                                     "<limit lower=\"-1.0\" effort=\"0\" velocity=\"1.0\"/>", "<limit upper=\"2.0\" effort=\"0\"/>"]));
+            v.push(format!("<joint name=\"{}\" type=\"continuous\">{}</joint>", names[k], inner));
+            continue;
+        }
         v.push(format!("<joint name=\"{}\" type=\"revolute\">{}</joint>", names[k], inner));
     }
     v
@@ -411,8 +419,9 @@ pub fn urdf_cases(prop: &str, r: &mut Rng, n: usize) {
                 3 => ("non-numeric", xml.replacen("xyz=\"", "xyz=\"abc ", 1)),
                 4 => {
                     // a second declaration of a joint with the same geometry that only ADDS limits is a conflicting duplicate
-                    let kk = (0..6).find(|&kk| joints[kk].contains("<limit")).unwrap_or(0);
-                    if joints[kk].contains("<limit") {
+                    let real = |j: &String| j.contains("<limit lower=") && j.contains(" upper=");
+                    let kk = (0..6).find(|&kk| real(&joints[kk])).unwrap_or(0);
+                    if real(&joints[kk]) {
                         let start = joints[kk].find("<limit").unwrap();
                         let end = joints[kk][start..].find("/>").unwrap() + start + 2;
                         let without = format!("{}{}", &joints[kk][..start], &joints[kk][end..]);
